@@ -96,11 +96,12 @@ theorem C19_same (fs : List MFunc) (inputs : List (String × Val)) (ui : List (S
 /-! ### un-mapped outputs -/
 
 /-- **Outputs without a MapSpec** are variables holding what the loader has for them: dimensionless (`dims = some []`) unless
-    the value is an ndarray, which is assigned bare (`dims = none`: a plain array variable). -/
+    the value is an ndarray, which is a plain array variable (`singleDims`: assigned bare when 0-d/1-D, else with the
+    dimension names `<name>_dim_<k>`). -/
 theorem C19_unmapped (mss : List MSpec) (inputs : List (String × Val)) (load : String → Option Val) (outputNames : List String)
     (li : Bool) (ds : Dataset) (n : String) (h : xarrayDataset mss inputs load outputNames li = .ok ds)
     (hn : n ∈ outputNames) (hun : ∀ ms ∈ mss, ∀ a ∈ ms.outputs, a.name ≠ n) :
-    ∃ var ∈ ds.vars, var.name = n ∧ load n = some var.data ∧ var.dims = if isArr var.data then none else some [] := by
+    ∃ var ∈ ds.vars, var.name = n ∧ load n = some var.data ∧ var.dims = singleDims n var.data := by
   unfold xarrayDataset at h
   simp only [bind, Except.bind] at h
   split at h
@@ -217,5 +218,8 @@ example : Reach (mapspecMapping [ms0, ms1, ms2]) 3 "y1" "i" "x0" :=
 example : ((xarrayOf [ms0, ms1, ms2] [("x0", xs0), ("x1", xs1), ("x2", xs2)] (fun _ => some .none) true "y1").toOption.map
     fun da => (da.dims, da.coords.map fun c => (c.name, c.dims))) =
     some ([some "j", some "i"], [("x0:x1", ["i"]), ("x2", ["j"])]) := by decide
+
+example : singleDims "z" (.str "s") = some [] ∧ singleDims "z" (.arr [3] []) = none ∧
+    singleDims "z" (.arr [3, 1] []) = some [some "z_dim_0", some "z_dim_1"] := by decide
 
 end PF.C19
